@@ -266,6 +266,9 @@ def dftTerm (numeric : Bool) (t : CTerm K) (N : Nat) (q : K) : Option K :=
     if numeric ∧ N ≤ l then some 0 else
     let v := if t.a = 1 then
         (if q = 1 then dftGeoSpecial t.p l N else dftGeoGeneral t.p l N q 1)
+      -- rule "a**n": when a = exp(2πj k0/N) (numeric N: `k0.is_integer` is decided) the special case of the inner
+      -- transform is kept, shifted to the bin k0 where a q = 1 (fix 5fb2713); otherwise `rm_cases`
+      else if numeric ∧ powK t.a N = 1 ∧ t.a * q = 1 then dftGeoSpecial t.p l N
       else dftGeoGeneral t.p l N (t.a * q) (powK t.a N)
     v.map (fun v => t.coef * v)
 
@@ -288,11 +291,12 @@ def lsum : List K → K
   | [] => 0
   | a :: l => a + lsum l
 
-/-- `DiscreteTimeDomainSequence.ZT`: element i is `vals[i] * z**(-i)` — the list POSITION i; the sequence
-    index `n0 + i` is not used and the result is re-indexed from 0 (finding F27 for `n0 ≠ 0`) -/
+/-- `DiscreteTimeDomainSequence.ZT` in its list-position form: element i is `vals[i] * z**(-i)`, result re-indexed
+    from 0 (the code before the repair of finding F27; selected by tx_dtseq when the source reads `z**(-ni)`) -/
 def seqZTPy (vals : List K) (z : K) : List K := pdilateFrom (1 / z) 1 vals
 
-/-- the z-transform terms with the sequence index: element i is `vals[i] * z**(-(n0 + i))` -/
+/-- the z-transform terms with the sequence index: element i is `vals[i] * z**(-(n0 + i))`
+    (selected by tx_dtseq when the source reads `z**(-self.n[ni])`: the repaired code) -/
 def seqZT (vals : List K) (n0 : Int) (z : K) : List K := pdilateFrom (1 / z) (zpowK (1 / z) n0) vals
 
 /-- `ZDomainSequence.IZT`: element i is `terms[i] * z**i` -/
